@@ -28,6 +28,9 @@ func isAbortCall(ins ssa.Instruction) bool {
 }
 
 func runC15(c *core.Ctx) {
+	defer func() {
+		c.Share(map[string]string{"R12.1": "R15.6"}, runC12) // the client going away makes the reply fail: that exit, too, must release the key lock
+	}()
 	c.Rule("R15.1", "every return of the connection loop is preceded by abort of the closer slice the server holds; the panic path aborts it in the deferred closure", 3)
 	c.Rule("R15.2", "abort closes every non-nil element of the slice it is given", 1)
 	c.Rule("R15.3", "on the accept path the client socket and both backend handlers are closed or handed over on every path to the next accept; the per-connection goroutine aborts all three or gives all three to the server constructor on every path", 4)
